@@ -37,15 +37,74 @@ func (echoPerf) Do(req *http.Request) (*http.Response, error) {
 }
 func (echoPerf) CloseIdleConnections() {}
 
+// hopPerf: o.test answers with a redirect to /next, and before it does the rules are replaced (a reload that
+// lands between the two rule lookups of one client request); every other host echoes like echoPerf.
+type hopPerf struct {
+	before func()
+}
+
+func (p hopPerf) Do(req *http.Request) (*http.Response, error) {
+	if req.URL.Host == "o.test" {
+		p.before()
+		return &http.Response{StatusCode: 302, Status: "302 Found", Proto: "HTTP/1.1", ProtoMajor: 1, ProtoMinor: 1,
+			Header: http.Header{"Location": []string{"/next"}}, Body: ioutil.NopCloser(strings.NewReader("")), ContentLength: 0, Request: req}, nil
+	}
+	return echoPerf{}.Do(req)
+}
+func (hopPerf) CloseIdleConnections() {}
+
+const swapPinnedRuns = 20
+
+// pinnedRun: version 1 routes /old to o.test (restart_on_redirect) and /next to a.test; version 2 routes /next to
+// b.test. The reload to version 2 happens while o.test is answering. The followed hop belongs to the same client
+// request and must still be handled under version 1; the next request must see version 2.
+func pinnedRun() (mixed int64, stale int64, err error) {
+	doc := func(v string) []byte {
+		return []byte(`{"rules":[{"path":"/old","destination":"http://o.test/","restart_on_redirect":true,"request_headers":{"X-Req":"o"}},` +
+			`{"path":"/next","destination":"http://` + v + `.test/","request_headers":{"X-Req":"` + v + `"}}]}`)
+	}
+	for i := 0; i < swapPinnedRuns; i++ {
+		v1, e := proxy.ParseRules(doc("a"), discardLogger)
+		if e != nil {
+			return 0, 0, e
+		}
+		conf := &config.Config{RetryTimes: []int{}}
+		var router proxy.Router
+		perf := hopPerf{before: func() {
+			v2, e := proxy.ParseRules(doc("b"), discardLogger)
+			if e == nil {
+				router.SetRules(v2)
+			}
+		}}
+		router = proxy.NewRouterWithPerformer(v1, discardLogger, conf, perf)
+		mux := http.NewServeMux()
+		server.ConfigureServeMux(mux, conf, router, discardLogger, nil)
+		ts := httptest.NewServer(mux)
+		get := func(p string) string {
+			resp, e := http.Get(ts.URL + p)
+			if e != nil {
+				return "error"
+			}
+			b, _ := ioutil.ReadAll(resp.Body)
+			resp.Body.Close()
+			return string(b)
+		}
+		if got := get("/old"); got != "a.test|a" {
+			mixed++
+		}
+		if got := get("/next"); got != "b.test|b" {
+			stale++
+		}
+		ts.Close()
+	}
+	return mixed, stale, nil
+}
+
 func (c swapCase) Run() (sx.V, error) {
 	mk := func(v string) (*proxy.Rules, error) {
 		return proxy.ParseRules([]byte(`{"rules":[{"path":"/x","destination":"http://`+v+`.test/","request_headers":{"X-Req":"`+v+`"}}]}`), discardLogger)
 	}
 	A, err := mk("a")
-	if err != nil {
-		return sx.L(), err
-	}
-	B, err := mk("b")
 	if err != nil {
 		return sx.L(), err
 	}
@@ -58,9 +117,14 @@ func (c swapCase) Run() (sx.V, error) {
 	var stop int32
 	done := make(chan struct{})
 	go func() {
+		// every reload installs a freshly parsed rule set, as the real reloader does
 		for atomic.LoadInt32(&stop) == 0 {
-			router.SetRules(B)
-			router.SetRules(A)
+			if b, err := mk("b"); err == nil {
+				router.SetRules(b)
+			}
+			if a, err := mk("a"); err == nil {
+				router.SetRules(a)
+			}
 		}
 		close(done)
 	}()
@@ -89,5 +153,30 @@ func (c swapCase) Run() (sx.V, error) {
 	wg.Wait()
 	atomic.StoreInt32(&stop, 1)
 	<-done
-	return sx.L(sx.I(total), sx.I(mixed)), nil
+	// a reload takes effect: once SetRules has returned, every new request is handled under the new version
+	var stale int64
+	for _, v := range []string{"b", "a", "b"} {
+		rs, err := mk(v)
+		if err != nil {
+			return sx.L(), err
+		}
+		router.SetRules(rs)
+		for i := 0; i < 5; i++ {
+			resp, err := http.Get(ts.URL + "/x")
+			if err != nil {
+				stale++
+				continue
+			}
+			b, _ := ioutil.ReadAll(resp.Body)
+			resp.Body.Close()
+			if string(b) != v+".test|"+v {
+				stale++
+			}
+		}
+	}
+	pm, ps, err := pinnedRun()
+	if err != nil {
+		return sx.L(), err
+	}
+	return sx.L(sx.I(total), sx.I(mixed), sx.I(stale+ps), sx.I(swapPinnedRuns), sx.I(pm)), nil
 }
